@@ -75,6 +75,12 @@ STATIC = [
     # blanks around the levels: the macro skips / trims them
     {"mod": "s19_empty_levels", "flags": ["StandardCommands"], "decls": [d(":SYSTem:BEEPer:[IMMediate]", "beep"), d("OUTPut::STATe?", "outq"),
                                                                            d("CONFigure:RANGe:", "conf", ["u8"]), d(" MEASure : VOLTage ?", "measq"), d(":*TRG", "trg")]},
+    # the device type has inherent methods of its own that are named like the standard commands' functions: the
+    # dispatcher must still reach the library's functions (fully qualified), not whatever method lookup finds first
+    {"mod": "s20_shadowing", "flags": ["StandardCommands", "ErrorCommands"], "decls": [d("USER:CMD", "u"), d("USER:QRY?", "uq")],
+     "raw_items": ["pub fn system_error_count(&mut self) -> Result<u8, scpi::Error> { Ok(0) }",
+                   "pub fn system_error_next(&mut self) -> Result<u8, scpi::Error> { Ok(0) }",
+                   "pub fn system_version(&mut self) -> Result<u8, scpi::Error> { Ok(0) }"]},
     # the options of the attribute in the other order: what is requested must not depend on the order it is requested in
     {"mod": "s18_flag_order", "flags": ["ErrorCommands", "StandardCommands"], "decls": [d("USER:CMD", "u"), d("OTHer?", "o")]},
 ]
@@ -243,6 +249,8 @@ def render(spec):
         out.append("        pub %sfn %s(&mut self%s) -> Result<%s, scpi::Error> { Ok(%s) }"
                    % ("async " if dcl["async"] else "", dcl["fn"], params, dcl["ret"], RET[dcl["ret"]]))
     emit_helpers(len(spec["decls"]))
+    for raw in spec.get("raw_items") or []:
+        out.append("        " + raw)
     out.append("    }")
     out.append("}")
     return "\n".join(out)
